@@ -113,6 +113,14 @@ def run(prog: Program, rep: Report, tier: str):
     got = Interp(prog).eval_method(c, "ndim", [])
     compare(rep, "C06.keys", method_site(prog, c, "ndim"), "AbstractDistribution.ndim", got,
             ("call", ("ext", "builtins.len"), (("attr", SELF, "shape"),), ()), "ndim")
+    # determinism: same key, same result - no other randomness source / hidden state in distribution methods
+    from .c14 import rule_effect
+    fns = []
+    for k in [c] + prog.subclasses(DIST):
+        for nm, fn in k.methods.items():
+            if nm not in ("__init__", "__check_init__"):
+                fns.append((k.module, k, fn))
+    rule_effect(prog, rep, fns, R="C06.det", minimum=40)
     rule_truthy(prog, rep, "C06.truthy", lambda m: m.name in ("flowjax.distributions", "flowjax.utils",
                                                               "flowjax.bijections.bijection"))
     if tier == "thorough":
